@@ -637,7 +637,10 @@ def run_check(prop, tier, seed):
             by_aspect.setdefault((f.get("unit"), f.get("aspect")), []).append(f)
         n = 0
         for (unit, aspect), fs in sorted(by_aspect.items(), key=lambda kv: str(kv[0])):
-            fs.sort(key=lambda f: len(json.dumps(f.get("case"), default=str)))
+            # (cases that carry their own history — an earlier request in the same process, an edit between two calls — first: they
+            #  fail when replayed alone; a case that failed only because an earlier case poisoned the process would not)
+            fs.sort(key=lambda f: (0 if isinstance(f.get("case"), dict) and any(str(k_).startswith(("earlier", "prior")) and v_ for k_, v_ in f["case"].items()) else 1,
+                                   len(json.dumps(f.get("case"), default=str))))
             p = write_replay(prop.id, n, {"property": prop.id, "kind": "impl-violation", "unit": unit,
                                           "aspect": aspect, "what": fs[0].get("what"), "case": fs[0].get("case"),
                                           "observed": fs[0].get("observed"), "count": len(fs),
